@@ -61,3 +61,26 @@ package lazyproto
 //@ func wireTypeMismatchError(got csproto.WireType, supported ...csproto.WireType) (e *WireTypeMismatchError)
 //@   trusted assembles an error message with fmt, sort and strings; the message text is not modelled
 //@   ensures e != nil
+
+// decodeWithPool takes a result from sync.Pool (not modelled) and runs decode on it (proved
+// above, but without a frame, so not usable by callers): assumed.  Only what its first and
+// last lines say is assumed: empty data gives (nil, nil), an error gives no result.
+//@ func (dec *Decoder) decodeWithPool(data []byte) (res *DecodeResult, err error)
+//@   trusted sync.Pool is not modelled; body not verified
+//@   ensures implies(len(data) == 0, res == nil && err == nil)
+//@   ensures implies(err != nil, res == nil)
+
+// NestedResults: safety only (no nil dereference, no index error) for every tag and every
+// recorded occurrence - an EMPTY nested message included, for which decodeWithPool returns
+// a nil result.
+//@ func (r *DecodeResult) NestedResults(tag int) (results []*DecodeResult, err error)
+//@   nilable
+//@   requires r == nil || (flatOK(r) && nestedDecodersOK(r))
+//@   noframe
+//@   loop 1: locals dec *Decoder, fd *FieldData
+//@   loop 1: invariant r != nil && dec != nil && fd != nil
+
+//@ func (r *DecodeResult) NestedResult(tag int) (res *DecodeResult, err error)
+//@   nilable
+//@   requires r == nil || (flatOK(r) && nestedDecodersOK(r))
+//@   noframe
